@@ -12,6 +12,7 @@ EXPLANATION = ('Static rules on the two-input operators: M0 both inputs are wire
                'flag); M3 take_until completes the main slot on the notifier\'s first item and ignores the notifier\'s own terminal, '
                'skip_until opens the gate on a notifier item only; M4 sample and buffer move the gathered data out before emitting it '
                '(no duplication on the next tick); M6 the source side of sample never emits (values are released by notifier events only); M5 zip\'s pending queues are first-in-first-out (necessary for pairing the i-th items); M7 latest-value flow, by provenance dataflow: combine_latest stores the incoming item first and combines it with the other side\'s stored value; with_latest_from pairs the incoming item with the stored secondary value and its secondary observer only stores; sample stores on the source side and releases+empties on a tick; merge forwards the incoming item unchanged; M8 when the closing notifier of buffer() or the sampler of sample() completes, what was gathered since the last tick is released before the completion (skipped only when nothing is gathered). Does not decide pairing, latest-value selection or per-interleaving outputs.')
+TECHNIQUE = 'static analysis: rule automata and path-sensitive provenance dataflow over MIR event graphs (custom rustc_private driver)'
 ASSUMPTIONS = ['the interleaving of the two inputs is arbitrary; only per-event handlers are analysed']
 
 SHARED = ['MutRc<ops::merge::MergeObserver>', 'MutArc<ops::merge::MergeObserver>',
